@@ -41,6 +41,7 @@ func MakeConfig(seed uint64, profile, tier string) SwarmConfig {
 	c.Genesis.PerpSafety = pick(r, []string{"1.025", "1.05", "1.2"})
 	c.Genesis.StableEpochLength = pick(r, []int64{1, 1, 5})
 	c.Genesis.EdenRewards = r.IntN(4) != 0
+	c.Genesis.Airdrops = profile == "C17" || profile == "C12" || profile == "C14"
 	// ---- agents: every agent is present with a rate drawn per run
 	lo := []float64{0, 0.15, 0.4, 0.7}
 	for _, a := range allAgentNames {
